@@ -172,6 +172,19 @@ Theorem case_map_chars : forall f tbl s r, case_map f tbl s = Some r ->
 Proof. intros f tbl s r H. exact (case_map_chars_l f tbl (utf8_chars s) r H). Qed.
 Print Assumptions case_map_ascii.
 Print Assumptions case_map_chars.
+(* trim(): the receiver is  l ++ result ++ r  with l and r consisting of (ASCII) white space only,
+   and the result neither begins nor ends with white space.
+   replace(x, y) with a non-empty x that does not occur in the receiver returns the receiver. *)
+Theorem string_trim_spec : forall s r0, scall STrim s [] = Some (EStr r0) ->
+  exists l r, s = (l ++ r0 ++ r)%string /\ all_space l = true /\ all_space r = true /\
+              no_lead_space r0 = true /\ no_lead_space (srev r0) = true.
+Proof. intros s r0 H. cbn in H. injection H as <-. exact (trim_space_spec_l s). Qed.
+Theorem string_replace_absent : forall s x y, x <> EmptyString ->
+  (forall pre post, s <> (pre ++ x ++ post)%string) ->
+  scall SReplace s [EStr x; EStr y] = Some (EStr s).
+Proof. intros s x y N H. cbn. rewrite (replace_absent_l x y s N H). reflexivity. Qed.
+Print Assumptions string_trim_spec.
+Print Assumptions string_replace_absent.
 Print Assumptions string_startsWith_iff.
 Print Assumptions string_endsWith_iff.
 Print Assumptions string_indexOf_leftmost.
